@@ -21,6 +21,7 @@ Clause(c) ==
   ELSE IF c.lin > 4 THEN "linear_in_flux"
   ELSE IF c.has_circ /\ c.circ > c.tol_circ THEN "circular_equals_elliptical_with_equal_widths"
   ELSE IF c.has_forms /\ c.forms > 4 THEN "sigma_and_fwhm_forms_agree"
+  ELSE IF c.has_psfref /\ c.psfref > 3277 THEN "pixel_integrated_gaussian_oriented_like_the_point_form"      \* 5 % of the peak
   ELSE "ok"
 Init == i = 1
 Next == /\ i <= Len(Cases)
